@@ -20,10 +20,17 @@ Definition stream_par (s : astream) : list sid :=
       end
   end.
 
+(* parents of a connection that is not attached to a peer: the pair it was
+   admitted through, or - after SetPeer took it off the allow-list
+   (transferAllowedToStandard) and was refused - nothing, or system + transient
+   in the order the transfer lists them *)
+Definition par_ok (al : bool) (P : list sid) : Prop :=
+  P = conn_par al \/ (al = false /\ (P = [] \/ P = [System; Transient])).
+
 Definition conn_link (st : state) (a : astate) (i : nat) (ac : aconn) : Prop :=
   exists ci h, nget (conns st) i = Some ci /\ hget (holders a) (Conn i) = Some h /\
                ci_peer ci = ac_peer ac /\ ci_allow ci = ac_allow ac /\ ci_ep ci = ac_ep ac /\
-               (ac_peer ac = None -> h_par h = conn_par (ac_allow ac)).
+               (ac_peer ac = None -> par_ok (ac_allow ac) (h_par h)).
 
 Definition stream_link (st : state) (a : astate) (j : nat) (s : astream) : Prop :=
   exists si h, nget (streams st) j = Some si /\ hget (holders a) (Stream j) = Some h /\
@@ -157,7 +164,7 @@ Proof.
     + intros i' ac Gi. rewrite nget_nset in Gi. destruct (Nat.eqb i i') eqn:X.
       * apply Nat.eqb_eq in X. subst i'. inversion Gi; subst ac. exists ci. eexists. cbn [holders]. rewrite hget_hset, sid_eqb_refl.
         split; [exact Gci|]. split; [reflexivity|]. cbn. unfold al. rewrite Gci. repeat split; try assumption;
-          try (intros _; destruct (ci_allow ci); reflexivity).
+          try (intros _; left; destruct (ci_allow ci); reflexivity).
       * apply Nat.eqb_neq in X. destruct (Lc i' ac Gi) as (ci' & h & P1 & P2 & R).
         destruct (hset_other_leaf (holders a) (Conn i) (mkHolder (conn_vec inb usefd) (if al then [ATransient; ASystem] else [Transient; System]) [] false) (Conn i') h ltac:(congruence) P2) as (h' & G' & Ep).
         exists ci', h'. rewrite (Ho i' ltac:(congruence)), Ep. split; [exact P1 | split; [exact G' | exact R]].
@@ -218,9 +225,75 @@ Proof.
     + exact Ls.
 Qed.
 
-Lemma conn_par_nonempty : forall st a i ac, Link st a -> nget (aconns a) i = Some ac -> ac_peer ac = None ->
-  exists x l, a_par a (Conn i) = x :: l.
+Lemma conn_par_cases : forall st a i ac, Link st a -> nget (aconns a) i = Some ac -> ac_peer ac = None ->
+  par_ok (ac_allow ac) (a_par a (Conn i)).
 Proof.
   intros st a i ac [Lc _] Ga Ap. destruct (Lc i ac Ga) as (ci & h & _ & Gh & _ & _ & _ & Hp).
-  rewrite (a_par_leaf a (Conn i) h eq_refl Gh), (Hp Ap). destruct (ac_allow ac); eexists; eexists; reflexivity.
+  rewrite (a_par_leaf a (Conn i) h eq_refl Gh). exact (Hp Ap).
+Qed.
+
+(* ---- the abstract successor when the answer admits several candidates ----------------------
+   A refused SetPeer that had to take the connection off the allow-list has
+   more than one legal outcome (Spec.astep).  The monitor picks the first
+   candidate whose sums match the observation; for the model's own trace that is
+   the candidate whose parent list is the connection's edge list after the step. *)
+Fixpoint sids_eqb (l1 l2 : list sid) : bool :=
+  match l1, l2 with
+  | [], [] => true
+  | x :: r1, y :: r2 => sid_eqb x y && sids_eqb r1 r2
+  | _, _ => false
+  end.
+
+Lemma sids_eqb_eq : forall l1 l2, sids_eqb l1 l2 = true <-> l1 = l2.
+Proof.
+  induction l1 as [|x r IH]; intros [|y r2]; cbn; split; intros H; try discriminate; try reflexivity.
+  - apply andb_true_iff in H. destruct H as [H1 H2]. apply sid_eqb_eq in H1. apply IH in H2. congruence.
+  - inversion H; subst. rewrite sid_eqb_refl. apply IH. reflexivity.
+Qed.
+
+Definition agrees (st' : state) (cand : astate) (o : op) : bool :=
+  match o with
+  | OSetPeer i _ => sids_eqb (a_par cand (Conn i)) (edges_of (scopes st') (Conn i))
+  | _ => true
+  end.
+
+Definition pickT (st' : state) (o : op) (a : astate) (l : list astate) : astate :=
+  match find (fun cand => agrees st' cand o) l with Some x => x | None => hd a l end.
+
+Definition anextT (c : config) (st : state) (a : astate) (o : op) : astate :=
+  let '(st', cls) := step c st o in
+  pickT st' o a (astep c a o cls (o_aflag (model_obs st st' o cls))).
+
+Lemma pickT_single : forall st' o a x, pickT st' o a [x] = x.
+Proof. intros. unfold pickT. cbn. destruct (agrees st' x o); reflexivity. Qed.
+
+Lemma pickT_hd : forall st' o a l, (forall cand, agrees st' cand o = true) -> pickT st' o a l = hd a l.
+Proof. intros st' o a l H. unfold pickT. destruct l as [|x r]; [reflexivity|]. cbn. rewrite H. reflexivity. Qed.
+
+Lemma anextT_other : forall c st a o, match o with OSetPeer _ _ => False | _ => True end ->
+  anextT c st a o = anext c st a o.
+Proof.
+  intros c st a o H. unfold anextT, anext. destruct (step c st o) as [st' cls].
+  apply pickT_hd. intros cand. destruct o; try reflexivity. destruct H.
+Qed.
+
+(* the link after SetPeer touched connection i only *)
+Lemma link_setpeer : forall st st' a a' i ac' ci' h',
+  Link st a ->
+  (forall i', nget (aconns a') i' = if Nat.eqb i i' then Some ac' else nget (aconns a) i') ->
+  astreams a' = astreams a ->
+  (forall i', nget (conns st') i' = if Nat.eqb i i' then Some ci' else nget (conns st) i') ->
+  streams st' = streams st ->
+  (forall y, hget (holders a') y = if sid_eqb (Conn i) y then Some h' else hget (holders a) y) ->
+  ci_peer ci' = ac_peer ac' -> ci_allow ci' = ac_allow ac' -> ci_ep ci' = ac_ep ac' ->
+  (ac_peer ac' = None -> par_ok (ac_allow ac') (h_par h')) ->
+  Link st' a'.
+Proof.
+  intros st st' a a' i ac' ci' h' [Lc Ls] Hac Has Hc Hs Hh E1 E2 E3 E4. split.
+  - intros i' acx Gi. rewrite Hac in Gi. unfold conn_link. rewrite Hc, Hh. cbn [sid_eqb].
+    destruct (Nat.eqb i i') eqn:X.
+    + inversion Gi; subst acx. exists ci', h'. repeat split; assumption.
+    + destruct (Lc i' acx Gi) as (ci1 & h1 & R). exists ci1, h1. exact R.
+  - intros j s Gj. rewrite Has in Gj. unfold stream_link. rewrite Hs, Hh. cbn [sid_eqb].
+    destruct (Ls j s Gj) as (si & h1 & R). exists si, h1. exact R.
 Qed.
